@@ -704,6 +704,7 @@ def run_items(chk, items, nworkers=4, module_size=8):
             for sk in mm["skipped"]:
                 out.append({"item": ids[sk["item"]], "status": "skipped", "why": sk["why"],
                             "ffcx_error": sk.get("ffcx_error", False), "missing_kernel": sk.get("missing_kernel", False),
+                            "numba_error": sk.get("numba_error"),
                             "tb": sk.get("tb", "")})
             for m in mm["meas"]:
                 if m["case"] is None:
@@ -927,3 +928,91 @@ class ExprModule:
                 "num_components": e.num_components, "rank": e.rank,
                 "num_coefficients": e.num_coefficients, "num_constants": e.num_constants,
                 "original_coefficient_positions": [e.original_coefficient_positions[i] for i in range(e.num_coefficients)]}
+
+
+class _CarrayShim:
+    """Stands in for the `numba` module when a generated *_numba.py is executed as plain Python: carray(ptr, shape)
+    returns a view of the *real* buffer behind ptr (the declared shape is not what is under test here)."""
+
+    def __init__(self):
+        self.buffers = {}
+
+    def carray(self, ptr, shape, dtype=None):
+        return self.buffers[int(ptr)]
+
+    def __getattr__(self, name):
+        import numba
+        return getattr(numba, name)
+
+
+class NumbaModule:
+    """Forms compiled with language='numba'; the generated source is executed as plain Python."""
+
+    def __init__(self, forms, scalar, options=None):
+        ensure_repo_on_path()
+        import ffcx.compiler
+        import ffcx.naming
+        import ffcx.options
+
+        opts = {"scalar_type": scalar, "language": "numba"}
+        opts.update(options or {})
+        self.scalar = scalar
+        ns = "nbmod"
+        code, suffixes = ffcx.compiler.compile_ufl_objects(list(forms), options=ffcx.options.get_options(opts), namespace=ns)
+        self.source = code[0]
+        self.suffixes = suffixes
+        compile(self.source, "<generated numba module>", "exec")      # SyntaxError here = not valid Python
+        self.shim = _CarrayShim()
+        self.ns = {}
+        exec(self.source, self.ns)
+        self.ns["numba"] = self.shim
+        self.objs = [self.ns[ffcx.naming.form_name(f, i, ns)] for i, f in enumerate(forms)]
+
+    def kernels(self, k, itype, sid):
+        f = self.objs[k]
+        t = ITYPES.index(itype)
+        lo, hi = f.form_integral_offsets[t], f.form_integral_offsets[t + 1]
+        return [f.form_integrals[i] for i in range(lo, hi) if f.form_integral_ids[i] == sid]
+
+    def call(self, integral, A, w, c, x, ent, perm):
+        bufs = {}
+        ptrs = []
+        for arr in (A, w, c, x, ent, perm):
+            p = arr.ctypes.data if arr.size else 0
+            if not arr.size:
+                p = -len(bufs) - 1
+            bufs[p] = arr.reshape(-1)
+            ptrs.append(p)
+        self.shim.buffers = bufs
+        integral.tabulate_tensor(*ptrs, None)
+
+    def descriptor(self, k):
+        f = self.objs[k]
+        return {"rank": f.rank, "num_coefficients": f.num_coefficients,
+                "original_coefficient_positions": list(f.original_coefficient_positions or [])[:f.num_coefficients],
+                "num_constants": f.num_constants,
+                "constant_shapes": [list(s_) for s_ in (f.constant_shapes or [])],
+                "form_integral_offsets": list(f.form_integral_offsets),
+                "form_integral_ids": list(f.form_integral_ids),
+                "domains": [int(i.domain) for i in f.form_integrals],
+                "enabled": [[int(b) for b in i.enabled_coefficients][:f.num_coefficients] for i in f.form_integrals],
+                "needs_perm": [bool(i.needs_facet_permutations) for i in f.form_integrals]}
+
+
+def c_descriptor(mod: Module, k):
+    f = mod.objs[k]
+    no = f.num_coefficients
+    ntypes = 5                                   # cell, exterior_facet, interior_facet, vertex, ridge (ufcx.h)
+    nint = f.form_integral_offsets[ntypes]
+    shapes = []
+    for i in range(f.num_constants):
+        r = f.constant_ranks[i]
+        shapes.append([f.constant_shapes[i][j] for j in range(r)])
+    return {"rank": f.rank, "num_coefficients": no,
+            "original_coefficient_positions": [f.original_coefficient_positions[i] for i in range(no)],
+            "num_constants": f.num_constants, "constant_shapes": shapes,
+            "form_integral_offsets": [f.form_integral_offsets[i] for i in range(ntypes + 1)],
+            "form_integral_ids": [f.form_integral_ids[i] for i in range(nint)],
+            "domains": [int(f.form_integrals[i].domain) for i in range(nint)],
+            "enabled": [[int(f.form_integrals[i].enabled_coefficients[j]) for j in range(no)] for i in range(nint)],
+            "needs_perm": [bool(f.form_integrals[i].needs_facet_permutations) for i in range(nint)]}
